@@ -65,7 +65,7 @@ def check_complete(rep, facts, rel, rule):
                         spellings.append(alt)
             for t in spellings:
                 n += 1
-                if not any(ru.name == base and ru.holds(t) for ru in rel.rules):
+                if not any(ru.name in (base, None) and ru.holds(t) for ru in rel.rules):
                     missed = missed or (t, ops)
         total += n
         rep.check(missed is None, rule, '{}: all {} expansions of legal operand tuples are matched by a rule'.format(cm, n),
